@@ -24,6 +24,8 @@ type UnitResult struct {
 }
 
 type Engine struct {
+	repo      string
+	outDir    string
 	prog      *Program
 	specDir   string
 	preludes  map[string]string // name -> text
@@ -175,8 +177,8 @@ func (en *Engine) verifyUnit(u *UnitInfo) *UnitResult {
 		}
 	}
 	np := u.Sig.Params().Len()
-	if len(spec.Params) != np {
-		res.Undecided = []string{fmt.Sprintf("contract header of %s binds %d parameters, function has %d", u.Name, len(spec.Params), np)}
+	if len(spec.Params) != np || len(spec.Results) != u.Sig.Results().Len() {
+		res.Undecided = []string{fmt.Sprintf("contract header of %s binds %d parameters and %d results, the function has %d and %d (callers fall back to its body)", u.Name, len(spec.Params), len(spec.Results), np, u.Sig.Results().Len())}
 		return res
 	}
 	for i := 0; i < np; i++ {
@@ -229,6 +231,10 @@ func (en *Engine) verifyUnit(u *UnitInfo) *UnitResult {
 	for _, c := range spec.clauses("ghost") {
 		st.assume(x.cxBool(st, c.Expr, x.entry, nil))
 	}
+	for _, c := range spec.clauses("captured-inv") {
+		x.assumed["A-late: closure "+u.Name+" is not invoked before its late-bound captured variables are assigned; invariant checked at the exits of the declaring function: "+c.Src] = true
+		st.assume(x.cxBool(st, c.Expr, x.entry, nil))
+	}
 	for _, c := range spec.clauses("requires") {
 		st.assume(x.cxBool(st, c.Expr, x.entry, nil))
 	}
@@ -253,6 +259,15 @@ func (en *Engine) verifyUnit(u *UnitInfo) *UnitResult {
 			x.oblige(st, "ensures", "ensures["+lbl+"]", g, nil)
 			tw := x.oblige(st, "twin", "twin[ensures["+lbl+"]]", sNot(g), nil)
 			tw.Expect = "sat"
+		}
+		for _, ch := range u.Children {
+			if ch.Spec == nil {
+				continue
+			}
+			for i, c := range ch.Spec.clauses("captured-inv") {
+				g := x.cxBoolIn(st, c.Expr, x.entry, map[string]Term{}, ch)
+				x.oblige(st, "ensures", fmt.Sprintf("captured-inv[%s.%s]", ch.Key, clauseLabel(c, i)), g, nil)
+			}
 		}
 		if rf := spec.clauses("refines"); len(rf) > 0 && x.hooks != nil {
 			q := x.cxTermIn(st, rf[0].Expr, x.entry, binds, nil)
@@ -418,7 +433,47 @@ const (
 	kGenResult = "seq.generator.result"
 )
 
-func (h *seqTheory) noteSpecApp(x *Exec, st *State, fun string, args []string) {}
+// noteSpecApp asserts the ground instances of the defining equations of
+// wrapL / constL for the spec-function application just built.
+func (h *seqTheory) noteSpecApp(x *Exec, st *State, fun string, args []string) {
+	once := func(k string) bool {
+		if st.seenInst[k] {
+			return false
+		}
+		st.seenInst[k] = true
+		return true
+	}
+	var lazyInst func(a, w string)
+	lazyInst = func(a, w string) {
+		if once("lazyI@" + a + "@" + w) {
+			st.assume(fmt.Sprintf("(=> (isConstL %s) (and (= (lazy_ret %s %s) (unconstL %s)) (= (lazy_w %s %s) %s)))", a, a, w, a, a, w, w))
+		}
+	}
+	lazyrInst := func(a, v, w string) {
+		if once("lazyrI@" + a + "@" + v + "@" + w) {
+			st.assume(fmt.Sprintf("(=> (isWrapL %s) (and (= (lazyr_ret %s %s %s) (lazy_ret (unwrapL %s) %s)) (= (lazyr_w %s %s %s) (lazy_w (unwrapL %s) %s))))", a, a, v, w, a, w, a, v, w, a, w))
+			lazyInst("(unwrapL "+a+")", w)
+		}
+	}
+	switch fun {
+	case "wrapL":
+		t := "(wrapL " + args[0] + ")"
+		if once("wrapL@" + t) {
+			st.assume(fmt.Sprintf("(and (isWrapL %s) (= (unwrapL %s) %s))", t, t, args[0]))
+		}
+	case "constL":
+		t := "(constL " + args[0] + ")"
+		if once("constL@" + t) {
+			st.assume(fmt.Sprintf("(and (isConstL %s) (= (unconstL %s) %s))", t, t, args[0]))
+		}
+	case "lazyr_ret", "lazyr_w":
+		lazyrInst(args[0], args[1], args[2])
+	case "lazy_ret", "lazy_w":
+		lazyInst(args[0], args[1])
+	case "FoNext":
+		lazyrInst("(nres "+args[0]+")", args[1], args[2])
+	}
+}
 
 func (h *seqTheory) coOf(x *Exec, st *State, spec *UnitSpec, binds map[string]Term) Term {
 	cs := spec.clauses("co")
